@@ -3,7 +3,7 @@
 # whether every test of BASELINE.stable_pass passed.  exit 0 = all stable tests pass.
 D=${1:-/repo}
 OUT=$(mktemp /tmp/baseline.XXXXXX.xml)
-( cd "$D" && /venv/bin/python -m pytest -ra -q -p no:cacheprovider --timeout=900 \
+( cd "$D" && PYTHONPATH="$D/pym" /venv/bin/python -m pytest -ra -q -p no:cacheprovider --timeout=900 \
     --continue-on-collection-errors --junitxml=$OUT >/dev/null 2>&1 )
 python3 - "$OUT" <<'PY'
 import json, sys, xml.etree.ElementTree as ET
